@@ -612,6 +612,18 @@ def r01q(ctx, rep, rule="R01q"):
         rep.fail(rule, key, "compile_runnable hands an outermost (begin ...) to the macro expander like any other form: its "
                  "definitions become internal definitions of the procedure `begin` expands to, so (begin (define zz 5)) defines "
                  "nothing at top level", [f.span])
+    ev = need(rep, rule, facts, "marwood::vm::builtin::procedure::eval")
+    if ev is not None:
+        lb = set()
+        for src, h in ev.back_edges():
+            lb |= (ev.reach_from(h) & ev.reach_back(src)) | {h, src}
+        looped = [bb for bb, t in ev.calls() if callee(t) == COMPILE + "compile" and bb in lb]
+        uses = any(callee(t) in testers for bb, t in ev.calls())
+        key = rule + "|eval|begin-spliced"
+        (rep.ok if uses and looped else rep.fail)(
+            rule, key, "the eval procedure splices a begin like the top level does" if uses and looped else
+            "the eval procedure compiles its argument without splicing: (eval '(begin (define zz 5) zz)) defines zz inside the "
+            "procedure `begin` expands to, and zz is unbound afterwards — whereas (eval '(define zz 5)) defines the global", [ev.span])
     g = need(rep, rule, facts, TPA)
     if g is not None:
         kws = set()
